@@ -62,6 +62,9 @@ class Translator:
     def __init__(self, known_fns=None, consts=None):
         self.known = known_fns or {}      # name -> (lean_name, [param widths], ret widths tuple)
         self.global_consts = consts or {}  # name -> (value, width)
+        self.resolver = None               # name -> source text of a helper fn in the same file
+        self.helper_prefix = ""
+        self.helpers = []                  # Lean text of helpers translated on demand
 
     # ---- parsing helpers
     def peek(self, k=0):
@@ -182,6 +185,14 @@ class Translator:
                     return Val(f"({(1 << w) - 1}#{w})", w, (1 << w) - 1)
                 raise Unsupported(f"{t}::{f}")
             if self.at("("):
+                if t not in self.known and self.resolver is not None:
+                    # helper defined in the same source file: translate it on demand
+                    src = self.resolver(t)
+                    if src is not None:
+                        saved = (self.toks, self.pos, self.env, self.counter)
+                        sub = self.translate_fn(src, self.helper_prefix + t)
+                        self.helpers.append(sub)
+                        self.toks, self.pos, self.env, self.counter = saved
                 if t not in self.known:
                     raise Unsupported(f"call to untranslated fn {t}")
                 lean_name, pws, rws = self.known[t]
